@@ -260,8 +260,8 @@ PROPS = {
                 "non-trivial = every case; distinct by stream bytes + configuration / history",
         "assumptions": [],
         "units": [
-            rap("reader", "^TestC18Reader$", 40, 400, 6, 16),
-            rap("writer", "^TestC18Writer$", 120, 1200, 4, 16),
+            rap("reader", "^TestC18Reader$", 24, 400, 10, 16),
+            rap("writer", "^TestC18Writer$", 80, 1200, 6, 16),
         ],
     },
     "C03": {
@@ -277,7 +277,7 @@ PROPS = {
         "assumptions": ["packet sizes < 188 and bufio.Readers smaller than the 193-byte detection window are outside the property"],
         "units": [
             rap("inputs", "^TestC03Inputs$", 8000, 100000, 4, 16),
-            rap("truncation", "^TestC03Truncation$", 20, 150, 6, 16),
+            rap("truncation", "^TestC03Truncation$", 12, 150, 10, 16),
             rap("descriptor_lengths", "^TestC03DescriptorLengths$", 150, 1500, 4, 16),
             {"name": "fuzz_bytes", "fuzz": "FuzzC03", "thorough": {"fuzztime": "150s", "timeout": 600}},
             {"name": "fuzz_sections", "fuzz": "FuzzC03Sections", "thorough": {"fuzztime": "120s", "timeout": 600}},
@@ -380,7 +380,7 @@ PROPS = {
                 "payload (muxer inputs), >= 4 goroutines mixing Demuxers and Muxers (concurrent); distinct by input bytes",
         "assumptions": [],
         "units": [
-            rap("aliasing", "^TestC16Aliasing$", 600, 6000, 4, 16),
+            rap("aliasing", "^TestC16Aliasing$", 300, 6000, 8, 16),
             rap("muxer_inputs", "^TestC16MuxerInputs$", 1000, 10000, 2, 8),
             rap("concurrent", "^TestC16Concurrent$", 25, 300, 4, 8, race=True),
         ],
